@@ -242,7 +242,7 @@ def main():
     os.makedirs(outdir, exist_ok=True)
     import importlib
     gens = dict(GENERATORS)
-    for modname in ('translate_plans', 'translate_xml', 'translate_params', 'translate_statics', 'translate_layout'):
+    for modname in ('translate_plans', 'translate_xml', 'translate_params', 'translate_statics', 'translate_layout', 'translate_nav'):
         try:
             mod = importlib.import_module(modname)
         except ImportError:
